@@ -635,7 +635,7 @@ func lexSpec(s string) ([]tok, error) {
 					goto next
 				}
 			}
-			if strings.ContainsRune("+-*/%<>!()[].,:@?&|", rune(c)) {
+			if strings.ContainsRune("+-*/%<>!()[].,:@?&|=", rune(c)) {
 				ts = append(ts, tok{"op", string(c), i})
 				i++
 			} else {
@@ -688,6 +688,29 @@ func (p *sparser) expect(s string) error {
 }
 
 func (p *sparser) expr() (*SExpr, error) {
+	if p.isID("let") {
+		// let x = e :: body
+		p.next()
+		if p.peek().kind != "id" {
+			return nil, fmt.Errorf("let: name expected at %d", p.peek().pos)
+		}
+		name := p.next().text
+		if err := p.expect("="); err != nil {
+			return nil, err
+		}
+		val, err := p.iff()
+		if err != nil {
+			return nil, err
+		}
+		if err := p.expect("::"); err != nil {
+			return nil, err
+		}
+		body, err := p.expr()
+		if err != nil {
+			return nil, err
+		}
+		return &SExpr{Op: "let", Name: name, Args: []*SExpr{val, body}}, nil
+	}
 	if p.isID("forall") || p.isID("exists") {
 		q := p.next().text
 		var bs []Binder
@@ -882,9 +905,13 @@ func (p *sparser) unary() (*SExpr, error) {
 		}
 		return &SExpr{Op: "un", Name: op, Args: []*SExpr{x}}, nil
 	}
-	if p.isOp("*") { // deref is implicit
+	if p.isOp("*") { // deref is implicit in expressions; kept for type arguments
 		p.next()
-		return p.unary()
+		x, err := p.unary()
+		if err != nil {
+			return nil, err
+		}
+		return &SExpr{Op: "un", Name: "*", Args: []*SExpr{x}}, nil
 	}
 	return p.postfix()
 }
